@@ -4,12 +4,13 @@ package main
 
 import (
 	"fmt"
-	"regexp"
 	"sort"
 	"strings"
 
+	"github.com/gethiox/HIDI/internal/pkg/input"
 	"github.com/gethiox/HIDI/internal/pkg/midi"
 	"github.com/gethiox/HIDI/internal/pkg/midi/device"
+	"github.com/holoplot/go-evdev"
 )
 
 const (
@@ -465,7 +466,43 @@ func (p *panicMon) checkBurst(c *StepCtx) {
 
 type exitMon struct{}
 
-var keyTrackerRe = regexp.MustCompile(`keyTracker=[^;]*;`)
+// dump fields: "name=value;" ...
+func dumpFields(d string) map[string]string {
+	m := map[string]string{}
+	for _, f := range strings.Split(d, ";") {
+		if i := strings.Index(f, "="); i > 0 {
+			m[f[:i]] = f[i+1:]
+		}
+	}
+	return m
+}
+
+func diffFields(a, b string) map[string]bool {
+	fa, fb := dumpFields(a), dumpFields(b)
+	r := map[string]bool{}
+	for k, v := range fa {
+		if fb[k] != v {
+			r[k] = true
+		}
+	}
+	for k := range fb {
+		if _, ok := fa[k]; !ok {
+			r[k] = true
+		}
+	}
+	return r
+}
+
+func dropFields(d string, drop map[string]bool) string {
+	var out []string
+	for _, f := range strings.Split(d, ";") {
+		if i := strings.Index(f, "="); i > 0 && drop[f[:i]] {
+			continue
+		}
+		out = append(out, f)
+	}
+	return strings.Join(out, ";")
+}
 
 func (exitMon) Key(*strings.Builder)    {}
 func (e exitMon) Clone(*worker) Monitor { return e }
@@ -495,8 +532,14 @@ func (exitMon) Step(c *StepCtx) {
 			c.viol("exit-press-not-swallowed", fmt.Sprintf("the press completing the exit sequence emitted %v", semList(c.Msgs)))
 			return
 		}
-		a := keyTrackerRe.ReplaceAllString(c.DumpPre, "")
-		b := keyTrackerRe.ReplaceAllString(c.DumpPost, "")
+		// "no note and no action of its own": the press may change only what the press of a key WITHOUT any role
+		// changes (the bookkeeping of held keys) - found differentially, so that no field name is assumed
+		probe := device.VerifClone(c.Dev, c.w.out, c.w.sigs)
+		p0 := device.VerifDump(probe)
+		device.VerifStep(probe, &input.InputEvent{Source: handler, Event: evdev.InputEvent{Type: evdev.EV_KEY, Code: evdev.KEY_KP9, Value: 1}})
+		c.w.drain()
+		allowed := diffFields(p0, device.VerifDump(probe))
+		a, b := dropFields(c.DumpPre, allowed), dropFields(c.DumpPost, allowed)
 		if a != b {
 			c.viol("exit-press-not-swallowed", fmt.Sprintf("the press completing the exit sequence changed device state:\n before %s\n after  %s", a, b))
 		}
